@@ -109,7 +109,8 @@ theorem C09_callback_mutex {cfg : Cfg} (wf : WF cfg) {s : State} (h : Reachable 
   split at hcb <;> omega
 
 /-- **C09_tensor_mutex**: two uses of the same tensor object are never inside the
-    `with tensor lock` section (budget acquire, write, release) together. -/
+    `with tensor lock` section together — the section now contains the progress callback (and its
+    lock) as well as budget acquire, write and release (`inT`). -/
 theorem C09_tensor_mutex {cfg : Cfg} (wf : WF cfg) {s : State} (h : Reachable cfg s)
     {i j : Nat} {p q : Pc} (hij : i ≠ j) (hobj : cfg.obj i = cfg.obj j)
     (hi : s.tasks[i]? = some p) (hj : s.tasks[j]? = some q) (hp : inT p = true) (hq : inT q = true) :
@@ -387,7 +388,8 @@ theorem C09_callback_mutex {cfg : Cfg} (wf : WF cfg) {s : State} (h : Reachable 
   split at hcb <;> omega
 
 /-- **C09_tensor_mutex** (nested): two uses of the same tensor object — also from different shards
-    — are never inside the tensor-lock section together. -/
+    — are never inside the tensor-lock section together; the section contains the progress callback
+    with its lock(s), budget acquire, write and release (`inT`). -/
 theorem C09_tensor_mutex {cfg : Cfg} (wf : WF cfg) {s : State} (h : Reachable cfg s)
     {i j : Nat} {p q : Pc} (hij : i ≠ j) (hobj : cfg.obj i = cfg.obj j)
     (hi : s.tasks[i]? = some p) (hj : s.tasks[j]? = some q) (hp : inT p = true) (hq : inT q = true) :
@@ -672,7 +674,7 @@ example : (run { exNested false with capacity := 3 } (init { exNested false with
     [.owner 0 0, .owner 0 0, .take 0, .owner 1 0, .owner 1 0, .take 0, .owner 2 0, .owner 2 0, .take 1,
      .take 1, .take 2, .take 2, .task 3, .task 3, .task 3, .task 3, .task 3, .task 0, .task 0, .task 0,
      .task 0, .task 0]).map (fun s => (s.tasks, s.inFlight)) =
-    some ([.waiting, .cbAcqIn, .cbAcqIn, .write], 2) := by decide
+    some ([.waiting, .tAcq, .tAcq, .write], 2) := by decide
 
 /-- the failing tensor's exception reaches the caller through the inner and the outer pool -/
 example : (run (exNested true) (init (exNested true))
